@@ -172,6 +172,12 @@ def gen(rng, tier):
         N = 280
     for _ in range(N):
         add(rng.choice(DTYPES), rng.choice(LAYOUTS), rng.choice(VALS), rng.choice(TARGETS))
+    # tensors of more than 1 MiB whose leading axis is not a round number (slab / chunk boundaries)
+    BIG = [("float32", [1001, 300]), ("complex128", [7, 25000]), ("float64", [262145]), ("int32", [1025, 257]),
+           ("uint8", [3, 349527]), ("float16", [1031, 521]), ("int64", [131073])]
+    for dt, shape in (rng.sample(BIG, 4) if tier == "quick" else BIG * 3):
+        fld = ("Linear", "weight") if len(shape) == 2 else rng.choice([("Scale", "scale"), ("meta", "metadata"), ("LIF", "v_leak")])
+        add(dt, rng.choice(["C", "F", "T"]) if len(shape) == 2 else "C", "random", rng.choice(TARGETS), shape=shape, fld=fld)
     # several tensors in ONE file that share dtype, shape and memory image but differ in layout (W and W.T),
     # and genuinely equal tensors
     for _ in range(12 if tier == "quick" else 150):
@@ -263,5 +269,31 @@ def run(c):
             fail = (f"{c['cls']}.{c['field']} ({c['dt']}, shape {c['shape']}, {c['val']} values, {c['layout']} layout, target "
                     f"{c['target']}): {what} changed: wrote {b[0]} {b[1]} {b[2][:16].hex()}, read {a[0]} {a[1]} {a[2][:16].hex()}")
             break
+    coq_term = cops(r, ["file"], ("ok", g2))      # before the in-place update below: the recipe shares the arrays
+    if not fail and c["cls"] not in ("Input",):
+        # the SAME node objects written again after their tensors were overwritten in place: the second file must hold the
+        # current content, not what an earlier serialisation saw
+        changed = 0
+        for i, x in enumerate(get_field(g, c)):
+            if isinstance(x, np.ndarray) and x.flags.writeable and x.size:
+                new = raw_values(x.dtype.name, x.size, "random", c["seed"] + 17 + i).reshape(x.shape)
+                try:
+                    np.copyto(x, new)
+                    changed += 1
+                except Exception:
+                    pass
+        if changed:
+            now = [(np.asarray(x).dtype.str, np.asarray(x).shape, np.ascontiguousarray(np.asarray(x)).tobytes()) for x in get_field(g, c)]
+            try:
+                with quiet():
+                    bio = io.BytesIO()
+                    nir.write(bio, g)
+                    g3 = nir.read(bio)
+                after3 = [(np.asarray(x).dtype.str, np.asarray(x).shape, np.ascontiguousarray(np.asarray(x)).tobytes()) for x in get_field(g3, c)]
+                if after3 != now:
+                    fail = (f"{c['cls']}.{c['field']} ({c['dt']}, shape {c['shape']}): the graph was written a second time after its "
+                            f"tensor was overwritten in place; the second file does not hold the current content")
+            except BaseException as e:  # noqa: BLE001
+                fail = f"second write/read of the same graph after an in-place tensor update raised {type(e).__name__}: {e}"
     nontriv = not (c["layout"] == "C" and c["val"] == "random" and len(c["shape"]) == 1)
-    return Outcome(cops(r, ["file"], ("ok", g2)), fail, nontriv, sig)
+    return Outcome(coq_term, fail, nontriv, sig)
